@@ -1,7 +1,41 @@
 import AvoVerif.Drv.Common
 import AvoVerif.Model.ISA
+import AvoVerif.Model.AllocHist
+import AvoVerif.Gen.Regs
 namespace Avo.Drv.C17
-open Avo.Drv
+open Avo.Drv Avo.AllocHist
+
+def pairTok : List String → Option ((Nat × Nat) × List String)
+  | a :: b :: ts => do let x ← a.toNat?; let y ← b.toNat?; some ((x, y), ts)
+  | _ => none
+
+/-- one operation of an `allochist` request (see harness/c17dirty.go) -/
+def opTok : List String → Option (Op × List String)
+  | "N" :: k :: ts => do let k ← k.toNat?; some (.new k, ts)
+  | "F" :: ts => do let (rows, ts) ← listOf pairTok ts; some (.newFrom rows, ts)
+  | "P" :: h :: id :: p :: ts => do
+    let h ← h.toNat?; let id ← id.toNat?; let p ← p.toInt?
+    some (.on h (.prio id p), ts)
+  | "A" :: h :: v :: ts => do let h ← h.toNat?; let v ← v.toNat?; some (.on h (.add v), ts)
+  | "E" :: h :: x :: y :: ts => do
+    let h ← h.toNat?; let x ← x.toNat?; let y ← y.toNat?
+    some (.on h (.edge x y), ts)
+  | "L" :: h :: ts => do let h ← h.toNat?; some (.on h .alloc, ts)
+  | _ => none
+
+def sortPairs (xs : List (Nat × Nat)) : List (Nat × Nat) :=
+  (xs.toArray.qsort (fun a b => a.1 < b.1)).toList
+
+/-- the answers of a history: one per creation and per `Allocate` (which error is not compared) -/
+def respStr : Resp → Option String
+  | .none => none
+  | .created h => some s!"h{h}"
+  | .err => some "err"
+  | .badHandle => some "bad-handle"
+  | .alloc (.error _) => some "err"
+  | .alloc (.ok al) =>
+    let s := sortPairs al
+    some (joinSp ("ok" :: toString s.length :: s.map (fun p => s!"{p.1} {p.2}")))
 
 /-- `accept-det k n d1 … dn`: all digests (`asm.stubs.alloc+isa`, or the error text) of the
 repeated generations are equal, and none is a panic (`Avo.Det.judge`; `acceptDet_sound` in Props/C17).
@@ -19,7 +53,18 @@ def handle : Handler
     let (names, _) ← listOf strTok rest
     let r := Avo.ISA.requiredISA names
     some (joinSp (toString r.length :: r))
+  | "allochist" :: rest => do
+    -- a history of public allocator calls over several allocators, from an empty process
+    let (ops, _) ← listOf opTok rest
+    let rs := (run Avo.Gen.regs [] ops).2
+    some (" ; ".intercalate (rs.filterMap respStr))
+  | "accept-order" :: _ :: rest => do
+    -- the register assignment of the clique program on a new allocator: in a fresh process / after a history
+    let (fresh, rest) ← listOf strTok rest
+    let (now, _) ← listOf strTok rest
+    some ((orderJudge fresh now).getD "ok")
   | _ => none
 
-def handlers : List (String × Handler) := [("accept-det", handle), ("isa", handle)]
+def handlers : List (String × Handler) :=
+  [("accept-det", handle), ("isa", handle), ("allochist", handle), ("accept-order", handle)]
 end Avo.Drv.C17
